@@ -368,7 +368,8 @@ class Failure:
 
 
 def write_replay(ctx, name, payload):
-    d = os.path.join(VERIF, "replays")
+    # runs against a scratch copy of the repository (VERIF_REPO) never touch the committed evidence/replays
+    d = os.path.join(VERIF, "replays") if TARGET == "target" else os.path.join(CACHE, "alt_replays")
     os.makedirs(d, exist_ok=True)
     path = os.path.join(d, f"{ctx.prop}_{name}.json")
     with open(path, "w") as f:
@@ -454,8 +455,9 @@ def finish(ctx, *, evaluations, distinct_nontrivial, rule, samples, distribution
         "wall_s": round(time.time() - ctx.t0, 2),
         "violations": violations,
     }
-    os.makedirs(os.path.join(VERIF, "evidence"), exist_ok=True)
-    with open(os.path.join(VERIF, "evidence", f"{ctx.prop}.json"), "w") as f:
+    evdir = os.path.join(VERIF, "evidence") if TARGET == "target" else os.path.join(CACHE, "alt_evidence")
+    os.makedirs(evdir, exist_ok=True)
+    with open(os.path.join(evdir, f"{ctx.prop}.json"), "w") as f:
         json.dump(ev, f, indent=1)
     status = "OK" if exit_code == 0 else "FAIL"
     print(f"[{ctx.prop}] {status}: obligations {ctx.discharged}/{ctx.obligations}, {evaluations} cases "
